@@ -182,6 +182,64 @@ def run(shard, rec):
                     if not ((a ^ (n + order)) == (a ^ n)):
                         V('order', f'a^(n+order) != a^n for n={n}, element {i}', case)
         rec.case(case, nontrivial=not (a == e))
+    # ---- independent double-and-add ladder (own code, only @ and ~) for large exponents, also on elements outside the generator's subgroup
+    def ladder(a, n):
+        if n < 0:
+            a, n = ~a, -n
+        r, b = e, a
+        while n:
+            if n & 1:
+                r = r @ b
+            n >>= 1
+            if n:
+                b = b @ b
+        return r
+    extra = []
+    if desc[0] == 'ec' and desc[1].startswith('Ed'):
+        with rec.guard(f'{gname} low-order point', [gname, 'extra'], dict(feats, mechanism='exception')):
+            F = G.field
+            low = {'affine': (F(0), F(-1)), 'projective': (F(0), F(-1), F(1)), 'extended': (F(0), F(-1), F(1), F(0))}[desc[2]]
+            t2 = G(low)                                   # the point of order 2: outside the prime-order subgroup
+            extra += [t2, G.generator @ t2]
+    if hasattr(G, 'encode') and desc[0] in ('ec', 'qr', 'schnorr') and not (desc[0] == 'ec' and desc[1] == 'BN256_twist') and (not order or order > 2 ** 20):
+        try:
+            M, Z = G.encode(42)
+            extra += [M, Z]
+        except Exception:
+            pass
+    big = [order, order + 1, -order, 2 * order + 5, order - 1, -(order + 3)] if order else [2 ** 70 + 3, -(2 ** 65) - 1]
+    for i, a in enumerate(list(elems[:4]) + extra):
+        for n in big + [rng.randrange(1, 2 ** 40), -rng.randrange(1, 2 ** 20)]:
+            case = [gname, 'ladder', i, str(n)]
+            if not rec.wants(case):
+                continue
+            with rec.guard(f'{gname} element {i} ^ {n}', case, dict(feats, mechanism='exception')):
+                rec.count('repeat_checks')
+                rec.count('ladder_checks')
+                if not ((a ^ n) == ladder(a, n)):
+                    V('repeat', f'a^{n} differs from an independent double-and-add ladder for element {i}' + (' (outside the generator subgroup)' if i >= 4 else ''), case)
+            rec.case(case, nontrivial=not (a == e))
+    # ---- normalisation is the identity map on group elements: a normalised element is a valid representation and behaves like the original
+    if desc[0] in ('ec', 'hc') and hasattr(G.identity, 'normalize'):
+        for i in range(min(6, len(elems))):
+            a, b = elems[i] @ elems[(i + 1) % len(elems)], elems[(i + 2) % len(elems)]
+            case = [gname, 'normalize', i]
+            if not rec.wants(case):
+                continue
+            with rec.guard(f'{gname} normalize', case, dict(feats, mechanism='exception')):
+                rec.count('law_checks')
+                nrm = a.normalize()
+                if not isinstance(nrm, type(a)):
+                    nrm = G(nrm, check=False) if not isinstance(nrm, G) else nrm
+                if not (nrm == a and (nrm @ b) == (a @ b) and (b @ nrm) == (b @ a) and (nrm @ nrm) == (a @ a) and (nrm @ ~a) == e and (nrm ^ 5) == (a ^ 5)):
+                    V('normalize', f'normalize() of a computed element does not behave like the element (element {i})', case)
+                member(nrm @ b, 'normalize(a) @ b', case)
+                if desc[0] == 'ec':
+                    try:
+                        G(tuple(nrm.value), check=True)
+                    except Exception as ex:
+                        V('normalize', f'normalize() returns a representation the checking constructor rejects: {type(ex).__name__}: {ex}', case)
+            rec.case(case, nontrivial=not (a == e))
     # ---- generator order
     if desc[0] != 'sym' and order:
         case = [gname, 'generator-order']
